@@ -31,7 +31,7 @@ func runC19(r *ev.Run) {
 	r.SetRule("a race-detector build of the harness runs stress rounds in a child process: a server with two users, 6-12 sessions per round issuing random commands on shared mailboxes (SELECT/EXAMINE, FETCH, STORE, COPY, MOVE, EXPUNGE, APPEND, SEARCH, IDLE, NOOP, STATUS, LIST, CREATE/RENAME/DELETE), sessions that LOGOUT and come back, sessions that drop the socket in the middle of a command, connections that never log in, connector updates of every kind from two goroutines, then RemoveUser of one user while its sessions are busy and Close of the server, each behind a watchdog. Oracles: no race report (reports de-duplicated by the pair of outermost gluon frames); no server panic; every client call, RemoveUser and Close return (a watchdog expiry counts only when the process used almost no CPU while waiting, i.e. it is blocked, not slow); after Close (listener closed, Serve context NOT cancelled) the goroutine count is back to what it was before the server was created. distinct = distinct (command kind, outcome) pairs of the children plus distinct race pairs")
 	r.Assume("a watchdog expiry with the process still consuming CPU is inconclusive; goroutines are given 15 s to end after Close before the count is taken")
 
-	rounds := r.Pick(64, 1600)
+	rounds := r.Pick(96, 1600)
 	children := r.Pick(4, 8)
 
 	type result struct {
@@ -341,7 +341,7 @@ func c19Round(st *c19State, dir string, seed int64) {
 					continue
 				}
 
-				ack := conn.Apply(up, 90*time.Second)
+				ack := conn.Apply(up, 20*time.Second)
 				st.outcome(fmt.Sprintf("update %T acked=%v", up, ack.Acked))
 
 				if !ack.Acked && ack.Err != nil && strings.Contains(ack.Err.Error(), "closed") {
